@@ -88,9 +88,11 @@ def drop (h : Nat) : AM Unit := fun a =>
     match decref u a.m with
     | (_, m') => (.ok (), { a with m := m', handles := a.handles.erase h })
 
-/-- an id above every live handle (for temporaries) -/
+/-- an id above every live handle of the session (for temporaries) -/
 def freshH : AM Nat := fun a =>
-  (.ok (match a.handles.maxKey? with | some k => k + 1 | none => 0), a)
+  let k1 := match a.handles.maxKey? with | some k => k + 1 | none => 0
+  let k2 := match a.foreign.maxKey? with | some k => k + 1 | none => 0
+  (.ok (max k1 k2), a)
 
 /-- `u.node` without any test (`low.node` in `find_or_add`, values of `let`, …) -/
 def nodeAny (h : Nat) : AM Int := fun a =>
